@@ -4,10 +4,11 @@ from vlib import gocheck
 
 def main():
     groups = [dict(pkg='compiler/internal/semantics/typechecker', rel='internal/semantics/typechecker', harnesses=['HarnessC03Compat'])]
+    groups += [dict(pkg='compiler/internal/verifrt/fe', rel='internal/verifrt/fe', harnesses=['HarnessC03Rules%d' % k], max_paths=100000) for k in range(5)]
     rc = gocheck.run('C03', 'other', groups, gocheck.GOSYM_ASSUME + [
         'forbidden-pair classes written from the rule catalogue of C03: numeric narrowing and float->int (also into / between optionals of numeric types), T? where a non-optional is required, &T where &\'T is required, conversions between number, bool and str; pairs outside these classes are not constrained',
-        'only the decision kernel checkTypeCompatibility/isImplicitlyCompatible is decided; that checkNode/checkExpr visit every context, argument counts, name resolution and return checking are outside this check',
-    ], 'PARTIAL (decision kernel only): checkTypeCompatibility is executed from its SSA for every ordered pair of a pool of 36 types (primitives, optionals, shared/mutable references, dynamic and fixed arrays, named aliases, anonymous and named structs, a result type; the pair is a symbolic choice, all pairs explored) and for every pair in a forbidden rule class the verdict must not be implicit.')
+        'front-end harness (HarnessC03Rules0-4): 36 ill-typed statements covering every rule class of the catalogue, each injected into 8 syntactic contexts (function body, if, else, while, for, match arm, function literal, nested if/while/match) of a function and of a method; the program space is that finite product; errors-gate-codegen is not decided (the harness stops after the type checker)',
+    ], 'FRONT END: every (rule, context, function-or-method) combination is assembled into a program and run through the REAL lexer, parser, collector, resolver and type checker inside the symbolic interpreter: the program must be rejected with an error on the injected line; the same program without the injection must be accepted. KERNEL: checkTypeCompatibility is executed from its SSA for every ordered pair of a pool of 36 types (primitives, optionals, shared/mutable references, dynamic and fixed arrays, named aliases, anonymous and named structs, a result type; the pair is a symbolic choice, all pairs explored) and for every pair in a forbidden rule class the verdict must not be implicit.')
     sys.exit(rc)
 
 if __name__ == '__main__':
